@@ -125,10 +125,13 @@ def validate_and_normalize(name, value, provenance=None):
 PARSE_BOOL = '''
 def _parse_bool(value):
     lowered = value.strip().lower()
-    if lowered in ("true", "1", "yes", "on"):
+    if lowered in ("true", "yes", "on"):
         return True
-    if lowered in ("false", "0", "no", "off"):
+    if lowered in ("false", "no", "off"):
         return False
+    number = int(value)
+    if number in (0, 1):
+        return bool(number)
     raise ValueError("expected true/false, 1/0, yes/no or on/off")
 '''
 
